@@ -79,3 +79,91 @@ Theorem C16_response_ends : forall size bs q, size <= 2 ^ 63 -> wf_ranges q = tr
             run_iter response_next (response_new (mkTree size bs) q) = pre_plan size 0 bs q.
 Proof. exact response_ends. Qed.
 Print Assumptions C16_response_ends.
+
+(* ======== Gap audit: with a wrong claimed size every stream is REJECTED WITH AN ERROR, by the iterators and by
+   the two decode_ranges drivers; which queries are size proofs ========
+   Proofs in Proofs/GapDrivers.v, GapNonvac.v. *)
+From BaoV Require Import Proofs.DecRanges Proofs.GapDrivers Proofs.GapNonvac.
+
+(* both iterators, on EVERY stream: the run ends with an error value (not Finished, no panic, no fuel exhaustion) *)
+Theorem C16_wrong_size_rejected : forall HO, hash_ok HO ->
+  forall (data : bytes HO) size' bs q,
+  size' <= 2 ^ 63 -> blen HO data <= 2 ^ 63 -> bs <= 10 -> wf_ranges q = true ->
+  sel q size' (nchunks size' - 1) = true -> size' <> blen HO data ->
+  forall (stream : bytes HO) ys o st,
+  dec_run HO (dec_new HO (root_hash HO data) (mkTree size' bs) stream q) = (ys, o, st) ->
+  exists e, o = Failed e.
+Proof. exact c16_rejected_sync. Qed.
+Print Assumptions C16_wrong_size_rejected.
+
+Theorem C16_wrong_size_rejected_fsm : forall HO, hash_ok HO ->
+  forall (data : bytes HO) size' bs q,
+  size' <= 2 ^ 63 -> blen HO data <= 2 ^ 63 -> bs <= 10 -> wf_ranges q = true ->
+  sel q size' (nchunks size' - 1) = true -> size' <> blen HO data ->
+  forall (stream : bytes HO) ys o st,
+  rd_run HO (rd_new HO (root_hash HO data) q (mkTree size' bs) stream) = (ys, o, st) ->
+  exists e, o = Failed e.
+Proof. exact c16_rejected_fsm. Qed.
+Print Assumptions C16_wrong_size_rejected_fsm.
+
+(* the decode_ranges drivers, for any target and any outboard carrying the true root hash and the CLAIMED tree:
+   the result is ranges_result (saves of the items applied) (Failed e), i.e. the decoder's error e, unless a save
+   failed first (then its io error; a panic only if a save panicked: C01_ranges_result, C01_apply_items_fold) *)
+Theorem C16_decode_ranges_rejected : forall HO, hash_ok HO ->
+  forall (data : bytes HO) size' bs q,
+  size' <= 2 ^ 63 -> blen HO data <= 2 ^ 63 -> bs <= 10 -> wf_ranges q = true ->
+  sel q size' (nchunks size' - 1) = true -> size' <> blen HO data ->
+  forall (stream target : bytes HO) (ob : outboard HO) res target' ob' st',
+  ob_root ob = root_hash HO data -> ob_tree ob = mkTree size' bs ->
+  decode_ranges HO stream q target ob = (res, target', ob', st') ->
+  exists ys e, let a := apply_items HO ys target ob in
+    res = ranges_result (a_res HO a) (Failed e) /\ target' = a_target HO a /\ ob' = a_ob HO a.
+Proof. exact c16_decode_ranges_rejected. Qed.
+Print Assumptions C16_decode_ranges_rejected.
+
+Theorem C16_decode_ranges_fsm_rejected : forall HO, hash_ok HO ->
+  forall (data : bytes HO) size' bs q,
+  size' <= 2 ^ 63 -> blen HO data <= 2 ^ 63 -> bs <= 10 -> wf_ranges q = true ->
+  sel q size' (nchunks size' - 1) = true -> size' <> blen HO data ->
+  forall (stream target : bytes HO) (ob : outboard HO) res target' ob' st',
+  ob_root ob = root_hash HO data -> ob_tree ob = mkTree size' bs ->
+  decode_ranges_fsm HO stream q target ob = (res, target', ob', st') ->
+  exists ys e, let a := apply_items HO ys target ob in
+    res = ranges_result (a_res HO a) (Failed e) /\ target' = a_target HO a /\ ob' = a_ob HO a.
+Proof. exact c16_decode_ranges_fsm_rejected. Qed.
+Print Assumptions C16_decode_ranges_fsm_rejected.
+
+(* io-backed and empty outboards never panic on save: there both drivers return an error value on every stream *)
+Theorem C16_drivers_error : forall HO, hash_ok HO ->
+  forall (data : bytes HO) size' bs q (stream target : bytes HO) (ob : outboard HO),
+  size' <= 2 ^ 63 -> blen HO data <= 2 ^ 63 -> bs <= 10 -> wf_ranges q = true ->
+  sel q size' (nchunks size' - 1) = true -> size' <> blen HO data ->
+  ob_root ob = root_hash HO data -> ob_tree ob = mkTree size' bs ->
+  (ob_k ob = PreIO \/ ob_k ob = PostIO \/ ob_k ob = EmptyOb) ->
+  (exists e, fst (fst (fst (decode_ranges HO stream q target ob))) = Err e) /\
+  (exists e, fst (fst (fst (decode_ranges_fsm HO stream q target ob))) = Err e).
+Proof. exact c16_drivers_error. Qed.
+Print Assumptions C16_drivers_error.
+
+(* the side condition on the query says exactly "contains the last chunk of the claimed geometry or reaches past
+   the claimed end"; the all-chunks query [0] satisfies it for every claimed size *)
+Theorem C16_size_proof_query_iff : forall (q : ranges) (size' : N),
+  sel q size' (nchunks size' - 1) = true <->
+  (mem q (nchunks size' - 1) = true \/ reaches q (nchunks size') = true).
+Proof. exact size_proof_query_iff. Qed.
+Print Assumptions C16_size_proof_query_iff.
+
+Theorem C16_all_query_is_size_proof : forall size',
+  wf_ranges [0] = true /\ sel [0] size' (nchunks size' - 1) = true.
+Proof. exact size_proof_query_all. Qed.
+Print Assumptions C16_all_query_is_size_proof.
+
+Theorem C16_rejected_nonvacuous :
+  exists HO, hash_ok HO /\
+  exists (data : bytes HO) (size' bs : N) (q : ranges) (ob : outboard HO),
+    size' <= 2 ^ 63 /\ blen HO data <= 2 ^ 63 /\ bs <= 10 /\ wf_ranges q = true /\
+    sel q size' (nchunks size' - 1) = true /\ size' <> blen HO data /\
+    ob_root ob = root_hash HO data /\ ob_tree ob = mkTree size' bs /\
+    (ob_k ob = PreIO \/ ob_k ob = PostIO \/ ob_k ob = EmptyOb).
+Proof. exact c16_nonvacuous. Qed.
+Print Assumptions C16_rejected_nonvacuous.
